@@ -200,10 +200,15 @@ for arch, vdef in ARCHS:
 for arch, vdef in ARCHS:
     for path, xd in (("production", []), ("sanitize", ["SANITIZE_PATH"])):
         C09_JOBS.append(dict(id="C09.Quote.tailguard.%s@%s" % (path, arch), src="c09_quote.c", harness="h_Quote_tailguard",
-            units=arch_units(arch) + ["QuotedChar", "kQuoteTab", "kNeedEscaped", "DoEscape", "CopyAndGetEscapMask", "MOVE_N_CHARS", "Quote", "Quote.tailguard"],
+            units=arch_units(arch) + ["QuotedChar", "kQuoteTab", "kNeedEscaped", "DoEscape", "CopyAndGetEscapMask", "MOVE_N_CHARS", "Quote", "Quote.tailguard", "Quote.tailmask"],
             defs=[vdef, "UNIT_TailGuard"] + xd, arch=arch, route="L", function="Quote: tail source selection (%s path), verbatim fragment" % path, unwind=2, timeout=600, replay="quote",
             claims="complete for the fragment: all tails 1 <= nb < VEC_LEN, " + ("all offsets in a two-page object incl. strings ending on its last byte" if not xd else "exact-size heap source") +
                    ": the source selected for the tail loop (in place under the page-offset guard, else the stack copy) has nb - 1 + VEC_LEN readable bytes; the copy stays inside the stack buffer and the string. (That the loop reads at most that far is read off the code; Quote's loops are undecided.)"))
+for arch, vdef in ARCHS:
+    C09_JOBS.append(dict(id="C09.Quote.tailmask@" + arch, src="c09_quote.c", harness="h_Quote_tailmask",
+        units=arch_units(arch) + ["QuotedChar", "kQuoteTab", "kNeedEscaped", "DoEscape", "CopyAndGetEscapMask", "MOVE_N_CHARS", "Quote", "Quote.tailguard", "Quote.tailmask"],
+        defs=[vdef, "UNIT_TailMask"], arch=arch, route="L", function="Quote: tail mask statement, verbatim fragment", timeout=600, replay="quote",
+        claims="complete for the fragment: for every tail 1 <= nb < VEC_LEN and every block mask, the mask used by the tail loop is the block mask restricted to its low nb bits; the shift amount is defined"))
 C09_JOBS.append(dict(id="C09.tables", src="c09_quote.c", harness="h_quote_tables", units=C09_JOBS[0]["units"], defs=["VEC_LEN=32"], arch="avx2", route="L", function="kQuoteTab / kNeedEscaped",
     replay="quotetab", claims="all 256 bytes: need-escape flag, escape length (0/2/6) and escape text equal RFC 8259 section 7; the 8 bytes DoEscape copies are readable"))
 C09_JOBS.append(dict(id="C09.DoEscape", src="c09_quote.c", harness="h_DoEscape", units=C09_JOBS[0]["units"], defs=["VEC_LEN=32"], arch="avx2", route="U", function="DoEscape",
